@@ -3,6 +3,7 @@ package main
 import (
 	"context"
 	"fmt"
+	"net"
 	"sort"
 	"strings"
 	"sync"
@@ -21,7 +22,9 @@ func c06ReplayCase(c *Ctx) *Result {
 	udp := c.Idx%2 == 1
 	rotation := c.Idx%8 >= 6 // place the original just before a known cache rotation
 	users := []UserSpec{{"alice", "alice-secret"}, {"bob", "bob-secret"}}
-	env, err := NewEnv(EnvCfg{UDP: udp, Users: users, PatC: genPattern(r, false), PatS: genPattern(r, false), Multiplex: 0})
+	// a quarter of the replays go to another port of the same server (port ranges are the usual deployment)
+	otherPort := rngFor(c.Seed, "C06-port", c.Idx).Intn(4) == 0
+	env, err := NewEnv(EnvCfg{UDP: udp, Users: users, PatC: genPattern(r, false), PatS: genPattern(r, false), Multiplex: 0, ExtraPorts: []int{8443}})
 	if err != nil {
 		return &Result{Verdict: Inconclusive, Detail: err.Error()}
 	}
@@ -38,7 +41,13 @@ func c06ReplayCase(c *Ctx) *Result {
 		origOpen = false
 	}
 	params := map[string]interface{}{"udp": udp, "offset_s": offset, "mode": mode, "repeats": repeats, "orig_open": origOpen,
-		"fresh": concurrentFresh, "rotation": rotation}
+		"fresh": concurrentFresh, "rotation": rotation, "replay_to_other_port": otherPort}
+	var replayTo net.Addr = env.Cfg.serverAddr()
+	if otherPort {
+		oc := env.Cfg
+		oc.Port = 8443
+		replayTo = oc.serverAddr()
+	}
 	c.Out.Start("C06", fmt.Sprintf("C06-replay/%d/%d", c.Seed, c.Idx), c.Seed, params)
 	res := &Result{Params: params, Obs: map[string]float64{}}
 	if rotation {
@@ -160,13 +169,13 @@ func c06ReplayCase(c *Ctx) *Result {
 				sel = dgrams[:1]
 			}
 			for _, d := range sel {
-				pc.WriteTo(d, env.Cfg.serverAddr())
+				pc.WriteTo(d, replayTo)
 				sent++
 			}
 			time.Sleep(time.Duration(200+r.Intn(800)) * time.Millisecond)
 			pc.Close()
 		} else {
-			cc, err := ep.DialContext(context.Background(), "tcp", env.Cfg.serverAddr().String())
+			cc, err := ep.DialContext(context.Background(), "tcp", replayTo.String())
 			if err != nil {
 				res.Verdict, res.Detail = Inconclusive, err.Error()
 				return res
@@ -219,7 +228,7 @@ func c06ReplayCase(c *Ctx) *Result {
 	if rotation {
 		res.Obs["rotation_cases"] = 1
 	}
-	res.Shape = shapeHash(udp, offset, mode, repeats, origOpen, concurrentFresh, rotation)
+	res.Shape = shapeHash(udp, offset, mode, repeats, origOpen, concurrentFresh, rotation, otherPort)
 	tr := "tcp"
 	if udp {
 		tr = "udp"
